@@ -8,6 +8,7 @@ use crate::frame::{
     FrameType, GetFrameType,
     verif_frames_c05::{
         any_cid, any_nat_type, any_socket_addr, any_varint, cid_eq, done, encode_exact, model_be_varint, skip_type,
+        stub_slice_index_fail,
     },
 };
 
@@ -36,6 +37,7 @@ fn body() {
 
 /// C05 ADD_ADDRESS (v4/v6, all NAT types), every varint field < 2^62 (quick tier: be_varint replaced by its verified model).
 #[kani::proof]
+#[kani::stub(core::slice::index::slice_index_fail, stub_slice_index_fail)]
 #[kani::unwind(18)]
 #[kani::stub(crate::varint::be_varint, model_be_varint)]
 fn c05_add_address_roundtrip() {
@@ -44,6 +46,7 @@ fn c05_add_address_roundtrip() {
 
 /// C05 ADD_ADDRESS (v4/v6, all NAT types), every varint field < 2^62 (thorough tier: the real nom be_varint).
 #[kani::proof]
+#[kani::stub(core::slice::index::slice_index_fail, stub_slice_index_fail)]
 #[kani::unwind(18)]
 fn c05_add_address_roundtrip_real() {
     body()
